@@ -101,14 +101,35 @@ Theorem C15_node_match_table : node_table (atom_grid el_axis iso_axis ast_axis a
 Proof. vm_compute. reflexivity. Qed.
 Print Assumptions C15_node_match_table.
 
-Theorem C15_edge_match_table : edge_table (bond_grid bt_axis bst_axis lab_axis) = edge_obs.
-Proof. vm_compute. reflexivity. Qed.
+(* edge predicate: agreement on every grid cell whose PATTERN bond type is one _edge_match implements
+   (Unknown, Single, Double, Triple, Aromatic, Amide, NotConnected).  For the other pattern types the code
+   raises NotImplementedError -- recorded finding C15:match:raises-NotImplementedError; that region is left
+   unspecified here so that a repair does not disturb this theorem. *)
+Theorem C15_edge_match_table :
+  let ps := edge_pairs (bond_grid bt_axis bst_axis lab_axis) in
+  length edge_obs = length ps /\
+  forall k e1 e2, nth_error ps k = Some (e1, e2) -> supported_bt (mb_btype e2) = true ->
+                  nth_error edge_obs k = Some (code_of_edge (edge_match e1 e2)).
+Proof. apply edge_agree_nth. vm_compute. reflexivity. Qed.
 Print Assumptions C15_edge_match_table.
+
+(* with a supported pattern no edge comparison raises *)
+Theorem C15_match_defined : forall P, supported_pattern P = true ->
+  forall e1 e2, In e2 (mg_bonds P) -> exists r, edge_match e1 e2 = Some r.
+Proof.
+  intros P HP e1 e2 H2. unfold supported_pattern in HP. rewrite forallb_forall in HP.
+  apply edge_match_defined. now apply HP.
+Qed.
+Print Assumptions C15_match_defined.
 
 (* reference semantics: the enumerator that molli's match()/get_substr_indices() are compared with returns
    exactly the induced embeddings -- none invalid, none missed, none twice.
    PARTIAL w.r.t. the implementation: the search itself is networkx VF2, which is not modelled; agreement of
-   molli's output with `enum` is established differentially (kernel-checked shards), not by proof. *)
+   molli's output with `enum` is established differentially (kernel-checked shards, supported patterns on
+   simple graphs), not by proof.  The full statement would be
+     forall H P, simple H -> simple P -> supported_pattern P = true ->
+       Permutation (molli_get_substr_indices H P) (enum H P)
+   and needs a model of networkx.GraphMatcher. *)
 Theorem C15_match_reference_partial : forall H P,
   (forall f, In f (enum H P) <-> embedding H P f) /\ NoDup (enum H P).
 Proof. intros H P. split; [intros f; apply enum_sound_complete|apply enum_nodup]. Qed.
